@@ -434,6 +434,10 @@ let make_m1 (params : string list) : machine =
     | [ "reopenat"; v; _ ] -> ignore (fdo (FOpenAt (not !fast, z_of_string v)))
     | [ "load"; v ] -> ignore (fdo (FLoad (z_of_string v)))
     | [ "lvfo"; v ] | [ "wlvfo"; v ] -> ignore (fdo (FLvfo (z_of_string v)))
+    | [ "dvreload"; v; mode ] ->
+        (match fdo (FLvfo (z_of_string v)) with
+         | XOk -> if mode = "reopen" then ignore (fdo (FOpen (not !fast)))
+         | _ -> ())
     | [ ("prune" | "wprune"); n ] -> ignore (fdo (FPrune (z_of_string n)))
     | [ "savecs"; pairs ] ->
         let dirty = (match !fs.ms.root with Some t -> int_of_z (node_meta t).ver = 0 | None -> false) in
@@ -460,8 +464,8 @@ let make_m1 (params : string list) : machine =
       (String.concat "," (List.map (fun (k, (u, v)) -> Printf.sprintf "%s=%s@%d" (hex_of_bytes k) (hex_of_bytes v) (int_of_z u)) !fs.fidx)) in
   let rec step1 (toks : string list) : string =
         match toks with
-        | [ ("prune" | "lvfo" | "wprune" | "wlvfo") as o; n ]
-          when out_of_contract (if o = "lvfo" || o = "wlvfo" then OLvfo (z_of_string n) else OPrune (z_of_string n)) ->
+        | ("dvreload" as o) :: n :: _ | [ ("prune" | "lvfo" | "wprune" | "wlvfo") as o; n ]
+          when out_of_contract (if o = "lvfo" || o = "wlvfo" || o = "dvreload" then OLvfo (z_of_string n) else OPrune (z_of_string n)) ->
             (* accepted by the model but outside the contract (deleting the version the working tree
                is based on, rolling back to version 0): not compared from here on *)
             raise Out_of_contract
@@ -572,6 +576,18 @@ let make_m1 (params : string list) : machine =
             st := s';
             (match x with XOk -> rk := List.filter (fun w -> int_of_z w <= int_of_string v) !rk | _ -> ());
             show_out x
+        | [ "dvreload"; v; mode ] ->
+            (* DeleteVersionsFrom(v+1) then reload: the rollback to v (then a reopen, which loads
+               the latest version = v) *)
+            let s', x = m_step !st (OLvfo (z_of_string v)) in
+            (match x with
+             | XOk ->
+                 st := s';
+                 rk := List.filter (fun w -> int_of_z w <= int_of_string v) !rk;
+                 if mode = "reopen" then begin
+                   let s2, x2 = m_step !st OReopen in st := s2; show_out x2
+                 end else "ok"
+             | _ -> st := s'; "err")
         | [ "wlvfo"; v ] ->
             (* the physical writes of a rollback, in order: Store.rollback_ops on the physical
                database, then - when the index is enabled and the label no longer names the latest
